@@ -548,7 +548,7 @@ func c13IdentityGuard(w *World, fn *ssa.Function, st *ssa.Store, x ssa.Value, li
 		return okAll && n > 0
 	}
 	ncall, all := 0, true
-	for caller := range allModuleFuncs(w, w.SSA()) {
+	for _, caller := range sortedModuleFuncs(w, w.SSA()) {
 		for _, c := range callsIn(caller) {
 			if c.Common().StaticCallee() != fn || pidx < 0 || pidx >= len(c.Common().Args) {
 				continue
